@@ -10,7 +10,7 @@ From LZ4V Require Import Gen.Consts Spec.BlockSpec Model.Mem Model.Fast Model.Fa
 From LZ4V Require Import Model.HcEmit Model.HcMid Model.HcMidStream Proofs.HcMidStreamProofs Proofs.HcMidStreamHist.
 From LZ4V Require Import Model.HcChain Model.HcChainApi Model.HcChainStream Proofs.HcChainStreamProofs Proofs.HcChainStreamHist.
 From LZ4V Require Import Model.HcOpt Model.HcOptApi Model.HcTabStream Model.HcOptStream Proofs.HcTabStreamProofs Proofs.HcOptStreamProofs.
-From LZ4V Require Import Proofs.FastStreamMem Proofs.FrameCExamples Proofs.FrameCTheorems Proofs.FrameRoundTrip Proofs.BlkInst.
+From LZ4V Require Import Proofs.FastStreamMem Proofs.FrameCExamples Proofs.FrameCTheorems Proofs.FrameRoundTrip Proofs.BlkInst Proofs.ParserBytesStream.
 Import ListNotations.
 Local Open Scope Z_scope.
 
@@ -44,7 +44,7 @@ Proof.
   set (lim := if len x - 1 <? compressBound (len x) then LimitedOutput else NotLimited).
   assert (Hlim : lim <> FillOutput) by (subst lim; destruct (len x - 1 <? compressBound (len x)); discriminate).
   destruct (hs_continue_generic (mo_m (st n)) (mo_c (st n)) (mo_src (st n)) (len x) (len x - 1) lim) as [[ret consumed out hw c']|] eqn:E; [|discriminate].
-  intros H. destruct (blk_out_some _ _ _ H) as (Hp & -> & _).
+  intros H. destruct (blk_out_some _ _ _ H) as (Hp & ->).
   destruct (hs_continue_generic_sound (mo_m (st n)) (mo_c (st n)) (mo_src (st n)) (len x) (len x - 1) lim ret consumed out hw c'
               O1 O2 O3 O4 ltac:(lia) ltac:(lia) E) as (ke & dc & He & Hr & Hdc & _ & Hpost).
   pose proof (hs_call_decodes (mo_m (st n)) ke dc (mo_src (st n)) (len x) (len x - 1) lim ret consumed out hw c' (mo_H (st n))
@@ -55,12 +55,15 @@ Proof.
   rewrite Gh. unfold lastZ, FC_64KB. exact HV.
 Qed.
 
-Theorem blk_mid_linked_bytes st : blk_bytes (blk_mid_linked st).
+Theorem blk_mid_linked_bytes st : (forall n, morc_ok (st n)) -> blk_bytes (blk_mid_linked st).
 Proof.
-  intros n h x c. unfold blk_mid_linked. cbv zeta.
-  destruct (blk_guard x && morc_consistent (st n) h x); [|discriminate].
-  destruct (hs_continue _ _ _ _ _) as [[ret consumed out hw c']|]; [|discriminate].
-  intros H. destruct (blk_out_some _ _ _ H) as (_ & _ & Hb). exact Hb.
+  intros Hst n h x c. unfold blk_mid_linked. cbv zeta.
+  destruct (blk_guard x && morc_consistent (st n) h x) eqn:G; [|discriminate].
+  apply andb_true_iff in G. destruct G as [G Gc]. destruct (guard_facts x G) as (Gb & Gn).
+  destruct (Hst n) as (O1 & O2 & O3 & O4 & O5).
+  destruct (hs_continue _ _ _ _ _) as [[ret consumed out hw c']|] eqn:E; [|discriminate].
+  intros H. destruct (blk_out_some _ _ _ H) as (Hp & ->).
+  apply (hs_continue_bytes (mo_m (st n)) (mo_c (st n)) (mo_src (st n)) (len x) (len x - 1) ret consumed out hw c' O1 O2 O3 O4 ltac:(lia) ltac:(lia) E).
 Qed.
 
 Print Assumptions blk_mid_linked_contract.
